@@ -463,12 +463,13 @@ package redis
 //@ func (*client).handleResp
 //@   prop C04 C11 C02
 //@   consumes req
-//@   requires c != nil && req != nil && v != nil
+//@   requires v != nil
 
 //@ func (*upstream).handleRedirection
 //@   prop C04 C11 C02
 //@   consumes req
 //@   requires u != nil && req != nil && resp != nil
+//@   requires @only-called-for-moved-or-ask nfields(str(resp.Text), " ") >= 1 ==> lower(field(str(resp.Text), " ", 0)) == "moved" || lower(field(str(resp.Text), " ", 0)) == "ask"
 
 //@ func (*upstream).handleClusterDown
 //@   prop C04 C11 C02
@@ -680,13 +681,13 @@ package redis
 //@ func (*client).Send
 //@   prop C02
 //@   consumes req
-//@   requires c != nil && req != nil
 
 //@ func (*client).loopWrite
 //@   prop C02 C01
 //@   flag tokens
 //@   requires c != nil
 //@   loop 0 assume c.filter != nil && (forall k int :: 0 <= k && k < len(c.filter.filters) ==> c.filter.filters[k] != nil)
+//@   assume @call FilterChain.Do r != nil && r.body != nil && len(r.body.Array) >= 1
 
 //@ func (*client).loopRead
 //@   prop C02 C01
